@@ -1,7 +1,7 @@
 """C12 root_attach moves only root children, to the lowest node spanning the neighbours."""
 from .. import model, sweep
 from ..runner import Result, scratch
-from ..bridge import T, build, quiet, monitor, extract, mt_equal, all_nodes, build_via_export, perturb, compare_written
+from ..bridge import T, build, quiet, monitor, extract, mt_equal, all_nodes, build_via_export, perturb, compare_written, build_any
 
 from trees import transform
 
@@ -109,7 +109,7 @@ def check_tree(mtj, order=None, pre=None):
     try:
         if pre:
             mt = model.MT(mt.sid, [dict(tk, word=',' if i % 2 else tk['word']) for i, tk in enumerate(mt.toks)], mt.root)
-        t = build_via_export(mt, scratch()) if order == 'export' else build(mt, child_order=order)
+        t = build_any(mt, order)
         if pre:
             t = transform.punctuation_root(t)
             mt = extract(t)
@@ -204,7 +204,7 @@ def run_chunk(chunk):
     with quiet():
         for sh, k in sweep.iter_shapes(chunk):
             mt = make_mt(sh)
-            for order in (None, 'rev', 'export'):
+            for order in (None, 'rev', 'export', 'written'):
                 vs, moves = check_tree(mt.to_json(), order)
                 res.evals += 1
                 if moves:
